@@ -59,8 +59,10 @@ def run(tier):
     d3 = vlib.drv_stats(vlib.run_driver(drv, ["coalesce", "conc", "-n", str(T["conc_n"]), "-out", tr, "-shards", sh]))
     # bounded exhaustive enumeration of schedules on the real queue (gate scheduler at the call boundaries and the three hook points)
     d4 = vlib.drv_stats(vlib.run_driver(drv, ["coalesce", "enum", "-out", tr, "-shards", sh] + (["-big", "-max", "20000"] if tier == "thorough" else []), timeout=3000))
+    # duels: producers released together by a spin barrier inserting (mostly) the same item; distinct outcomes only
+    d5 = vlib.drv_stats(vlib.run_driver(drv, ["coalesce", "duel", "-n", str(60000 if tier == "quick" else 1500000), "-out", tr, "-shards", sh], timeout=3000))
     lin_files = sorted(os.path.join(tr, f) for f in os.listdir(tr) if f.startswith(("seq-", "rand-")))
-    conc_files = sorted(os.path.join(tr, f) for f in os.listdir(tr) if f.startswith(("conc-", "enum-")))
+    conc_files = sorted(os.path.join(tr, f) for f in os.listdir(tr) if f.startswith(("conc-", "enum-", "duel-")))
 
     tv = time.time()
     s1, r1 = vlib.validate_traces("CoalesceTrace.tla", "CoalesceTrace.cfg", lin_files, os.path.join(work, "v1"), is_boundary)
@@ -79,6 +81,7 @@ def run(tier):
         states=mc1["distinct"] + mc2["distinct"], transitions=mc1["generated"] + mc2["generated"],
         traces_validated_against_impl=seqs + d2.get("sequences", 0) + d3.get("histories", 0) + d4.get("histories", 0),
         enumerated_schedules=d4.get("schedules", 0), enumerated_distinct_histories=d4.get("histories", 0),
+        duel_rounds=d5.get("rounds", 0), duel_distinct_histories=d5.get("histories", 0),
         samples=vlib.sample_lines(conc_files, 3, skip=lambda l: b'"reset"' in l or b'"inv"' in l),
         evaluations=s1["events"] + s2["events"], distinct_nontrivial=distinct,
         rule="every sequence of length %d over {Insert a/b/c, Next, Close, IsClosed} (exhaustive), %d random sequences of length %d over up to 8 items, "
